@@ -216,7 +216,7 @@ def twin(ctx, case):
 
 
 def obligations(tier):
-    n1 = 3 if tier == 'quick' else 4
+    n1 = 4 if tier == 'quick' else 5
     cases = []
     for n in range(0, n1 + 1):
         for supress in (False, True):
